@@ -10,6 +10,7 @@ claimed = {
  "C17": ("other", "Go-side proof that write/read/exists emit the specified templates with the arguments in their positions; what the file system then holds is Bash's doing and is trusted.", "§5 C17"),
 }
 claimed.update({
+ "C13": ("proof", "Zero-annotation safety sweep over every function of lexer, parser, transpiler, both converters and tsh.go: each index/slice bound, nil map write, nil dereference, single-value type assertion, division and reachable panic is a named obligation; 907 of 1067 are discharged on the unchanged tree (the ledger) and are what is claimed; the remaining 160 need preconditions about the AST / token list that are not yet stated and are reported as undecided, never as proved.", "§5 C13"),
  "C06": ("proof", "'accepted implies well-typed' proved by structural induction over the parser: a recursive typing predicate specTyped (Go rules for the shared syntax, README signatures for builtins) is the postcondition of every expression-parsing function (precedence chain, binary/logical/comparison/unary, primary expressions, subscripts, builtins, calls); call arguments and slice literal elements by quantified postconditions (arity and per-position parameter types); operator tables of both converters are proved equal to the same spec tables (error iff not allowed), which is the target-independence half.", "§5 C06"),
  "C07": ("proof", "Scope placement checks as postconditions (break/continue/return only inside the right construct via a recursive scope-stack predicate, function definitions only at top level, a second function of the same name rejected). The frame part (definitions never escape their block: context clones) is not yet under contract.", "§5 C07"),
  "C09": ("other", "Partial: alias lookups find nothing for an alias that was never imported; imported top-level statements are never dropped by the duplicate-suppression loop (counting invariant). Call-graph merge/reachability and prefix naming are not yet under contract.", "§5 C09"),
@@ -18,6 +19,7 @@ claimed.update({
  "C18": ("other", "Only the transpiler half so far: a call chain leads to exactly one converter AppCall with the value-used flag. The word-level quoting clause on bash.AppCall is not yet under contract.", "§5 C18"),
 })
 notes = {
+ "C13": "Termination (import cycles, parser recursion) is not proved: no decreases clauses yet. Mathematical integers (A1); stack depth and memory exhaustion not modelled. Undecided obligations are listed in the evidence.",
  "C06": "Statement-level typing (definitions/assignments/returns/conditions) is not yet under contract; ordering comparison of strings, the argument type of panic and print are unspecified and not demanded. Library models: strconv.Atoi/ParseBool uninterpreted.",
  "C07": "Map-heap frame conditions for context cloning are pending; see DESIGN.md §5 C07.",
  "C09": "Trusted: os/filepath/sha256 uninterpreted. Only the two clauses named in the claim are proved.",
